@@ -1,8 +1,9 @@
 from pyvc.runner import register_modules
 
-register_modules("C11", "bounded.C11_api")
+register_modules("C11", "contracts.C11_control", "bounded.C11_api")
 LEVEL = "other"
-EXPLANATION = ("Finite-domain contract: the complete step domain of the control model (states x remembered sub-state x events x probe "
+EXPLANATION = ("(VC) StateModelsCapability._on_s01f15 / _on_s01f17 / _get_control_state_id for every control state and _on_control_state_attempt_online for every communication state and ANY probe reply header: acknowledge codes, which transition is requested, the EQUIPMENT_OFFLINE event, success of the on-line attempt exactly on an S1F2 reply. "
+               "Finite-domain contract: the complete step domain of the control model (states x remembered sub-state x events x probe "
                "outcome, plus ATTEMPT_ONLINE as observed pre-state and all initial configurations) is executed on the real handler "
                "and compared with the E30 table; induction over histories because every stable state is a start state.")
 ASSUMPTIONS = ["oracle: DESIGN.md Appendix A.3 (A-ORACLE)", "harness: MemConnection + scripted peer, SyncDispatcher, VirtualTimer, inline collection-event threads"]
